@@ -37,6 +37,7 @@ func main() {
 	commands["c19sel"] = runC19Sel
 	commands["c12"] = runC12
 	commands["c08"] = runC08
+	commands["c18"] = runC18
 	commands["c14hash"] = func(a []string) { initCollisions(); runC14Hash(a) }
 	registerMore()
 	if len(os.Args) < 2 {
